@@ -2,7 +2,7 @@
 from ..canon import Canon, subtrees, show
 from ..extract import AnalysisBroken
 from ..facts import src
-from ..rules import overlap
+from ..rules import overlap, sem
 from ..rules.results import lvalue_text
 from ..util import switch_table, find_switches, is_assign
 
@@ -97,7 +97,7 @@ def run(ctx):
     for file_, fname, lib, ai in ((GZ, "carquet_gzip_compress", None, None), (GZ, "carquet_gzip_decompress", None, None),
                                    (ZS, "carquet_zstd_compress", "ZSTD_compress", 1),
                                    (ZS, "carquet_zstd_decompress", "ZSTD_decompressDCtx", 2)):
-        f = P.fn(fname, file_)
+        f = P.inlined(P.fn(fname, file_), 2)       # helpers that set up the stream are expanded
         cz = Canon(f)
         pn = [p["n"] for p in f.params]
         cap = ("param", pn.index("dst_capacity"), "size_t")
@@ -117,46 +117,9 @@ def run(ctx):
         ctx.ob("R5.agree", "wrapper-capacity|%s:%s" % (file_, fname), P.where(f.body),
                "%s gives the library exactly dst / dst_capacity as its output window" % fname, ok)
 
-    # ---- compress_data
-    cd = P.fn("compress_data", PW)
-    sws = [s for s in find_switches(cd) if "codec" in src(s.c[-2])]
-    if len(sws) != 2:
-        raise AnalysisBroken("compress_data: expected two switches over the codec")
-    t1, _ = switch_table(sws[0])
-    t2, _ = switch_table(sws[1])
-    pairs = {"CARQUET_COMPRESSION_SNAPPY": "snappy", "CARQUET_COMPRESSION_LZ4": "lz4",
-             "CARQUET_COMPRESSION_LZ4_RAW": "lz4", "CARQUET_COMPRESSION_GZIP": "gzip",
-             "CARQUET_COMPRESSION_ZSTD": "zstd"}
-    bound_var = None
-    for codec, stem in pairs.items():
-        b = [c.callee for s in t1.get(codec, []) for c in s.walk() if c.k == "CallExpr" and c.callee]
-        k = [c for s in t2.get(codec, []) for c in s.walk() if c.k == "CallExpr" and c.callee]
-        okb = b == ["carquet_%s_compress_bound" % stem]
-        okk = len(k) == 1 and k[0].callee == "carquet_%s_compress" % stem
-        capok = False
-        if okk:
-            a = k[0].args()
-            capok = lvalue_text(a[3]) is not None
-            bound_var = bound_var or lvalue_text(a[3])
-            capok = capok and lvalue_text(a[3]) == bound_var
-        ctx.ob("R5.agree", "codec-pair|%s:compress_data|%s" % (PW, codec), P.where(sws[1]),
-               "%s: bound from carquet_%s_compress_bound, compressed by carquet_%s_compress with that bound "
-               "as capacity" % (codec, stem, stem), okb and okk and capok, "bound fn %s, compressor %s" % (b, [c.callee for c in k]))
-    for tab, nm in ((t1, "bound"), (t2, "compress")):
-        d = tab.get("default")
-        okd = d is not None and any((r.k == "ReturnStmt" and r.c and r.c[0].cv not in (0, None)) or
-                                    (is_assign(r) and r.c[1].cv not in (0, None)) for s in d for r in s.walk())
-        ctx.ob("R5.agree", "codec-default|%s:compress_data|%s" % (PW, nm), P.where(cd.body),
-               "unknown codecs are refused by the %s table" % nm, okd)
-    mal = cd.calls("malloc")
-    okm = len(mal) == 1 and lvalue_text(mal[0].args()[0]) == bound_var
-    ctx.ob("R5.agree", "codec-alloc|%s:compress_data" % PW, P.where(cd.body),
-           "the compression buffer is malloc(bound) for the same `bound` passed as capacity", okm)
-    # the bound variable is assigned only by the first switch
-    bw = [a for a in cd.body.walk() if is_assign(a) and lvalue_text(a.c[0]) == bound_var]
-    okw = all(any(anc is sws[0] for anc in a.ancestors()) for a in bw) and bool(bw)
-    ctx.ob("R5.agree", "codec-bound-stable|%s:compress_data" % PW, P.where(cd.body),
-           "`%s` is not modified between the bound table and its uses" % bound_var, okw)
+    # ---- compress_data: semantic table (shared with C01/C05)
+    from ..rules import codecrepr
+    codecrepr.writer(ctx, "R5.agree", "codec-pair")
 
     offset_width_rule(ctx)
     overlap.run(ctx)
